@@ -219,7 +219,7 @@ func (l *lowerer) attrBody(a *Attr, withDesc bool) []*dt.Node {
 		b = append(b, dt.N("View", dt.S(a.View)))
 	}
 	b = append(b, l.validation(a)...)
-	if a.Default != nil {
+	if a.Default != nil && !a.DefaultFromAlias {
 		b = append(b, dt.N("Default", valueArg(*a.Default, l.d.Underlying(a))))
 	}
 	for _, m := range a.Meta {
